@@ -208,6 +208,10 @@ def _make_original(case, scratch):
         materialise(root, tree["files"], tree["dirs"])
     mpath = os.path.join(scratch, "meta", "m.torrent")
     os.makedirs(os.path.dirname(mpath), exist_ok=True)
+    if case.get("preexisting_output"):
+        # the output path already holds a (longer) file, e.g. an earlier metafile that is being re-created in place
+        with open(mpath, "wb") as fd:
+            fd.write(b"d8:announce3:old4:infod4:name3:olde" + b"e" * 30 + content(7, 200000 if case["preexisting_output"] == "long" else 10))
     if case["origin"] == "tool":
         o = case["opts"]
         oc = drive.create(case["route"], root, mpath, piece_length=2 ** case["pl_exp"], progress=0,
@@ -247,7 +251,8 @@ def _gen_case(rng, tier, origins):
                      "flags_first": rng.random() < 0.3})
     return {"tree": tree, "pl_exp": exp, "version": version, "origin": origin,
             "route": rng.choice(ROUTES[version]), "opts": gen_opts(rng), "extra": rng.random() < 0.5,
-            "history": hist, "enum_seed": rng.randrange(1000)}
+            "history": hist, "enum_seed": rng.randrange(1000),
+            "preexisting_output": rng.choice([None, None, "long", "long", "short"])}
 
 
 def _reach():
@@ -275,7 +280,8 @@ class C06:
             "duplicates, redundant digits, trailing bytes) and checked against the per-version structural schema; "
             "non-trivial when v2/hybrid with >= 2 multi-piece files, or >= 1 edit, or >= 3 options; distinct by "
             "(version, route, option subset, #multi-piece files, edit history shape)")
-    required = ("files_strictly_decoded", "decoded_after_edit", "cases_ge2_layer_keys", "edits_cli", "edits_lib")
+    required = ("files_strictly_decoded", "decoded_after_edit", "cases_ge2_layer_keys", "edits_cli", "edits_lib",
+                "created_over_a_longer_existing_file")
     assumptions = ("strict reference decoder (ref/bencode.py) implements the canonical form of BEP 3",)
 
     @staticmethod
@@ -311,6 +317,8 @@ class C06:
                     v["detail"]["after"] = f"edit#{n}"
                     v["detail"]["request"] = step["req"]
                     viol.append(v)
+        if case.get("preexisting_output") == "long":
+            counters["created_over_a_longer_existing_file"] = 1
         nmulti = sum(1 for f in case["tree"]["files"] if f[1] > 2 ** case["pl_exp"])
         nontrivial = (case["version"] != 1 and nmulti >= 2) or len(case["history"]) >= 1 or len(case["opts"]) >= 3
         return {"violations": viol, "counters": counters, "reach": reach.collect(), "nontrivial": nontrivial,
